@@ -4,11 +4,20 @@
 # and rewrites /verif/seeded/<id>/checks.txt. Used after a check was strengthened.
 ID="$1"; shift; CHECKS="$@"
 OUT=/verif/seeded/$ID
-[ -z "$(git -C /repo status --short)" ] || { echo "/repo not clean"; exit 2; }
 P=$OUT/patch.diff; [ -f $OUT/patch.rebased.diff ] && P=$OUT/patch.rebased.diff  # same change re-made on the current tree after a later fix touched the same lines
+if [ -n "${SEED_WT:-}" ]; then
+  # a long check of the unchanged tree is running elsewhere: use a scratch worktree instead of /repo
+  CW=/var/tmp/spc.$$; git -C /repo worktree add -q $CW HEAD || exit 2
+  ( cd $CW && git apply $P ) || { echo "cannot apply"; git -C /repo worktree remove --force $CW; exit 2; }
+  export VERIF_REPO=$CW
+  trap 'git -C /repo worktree remove --force $CW' EXIT
+  echo "# checks run against a scratch worktree of /repo $(git -C /repo rev-parse --short HEAD) with the patch applied (VERIF_REPO), machinery $(git -C /verif rev-parse --short HEAD)" > $OUT/checks.txt
+else
+[ -z "$(git -C /repo status --short)" ] || { echo "/repo not clean"; exit 2; }
 git -C /repo apply $P || { echo "cannot apply to /repo"; exit 2; }
 trap 'git -C /repo checkout -- .' EXIT
 echo "# checks run with the patch applied to /repo $(git -C /repo rev-parse --short HEAD), machinery $(git -C /verif rev-parse --short HEAD)" > $OUT/checks.txt
+fi
 for c in $CHECKS; do
   r=$(/verif/check $c quick 2>&1); rc=$?
   echo "== $c quick rc=$rc" >> $OUT/checks.txt; echo "$r" | grep "by rule\|^VIOLATION\|^  rule\|quick:" | cut -c1-300 >> $OUT/checks.txt
